@@ -281,33 +281,56 @@ def walk_subtree(space, start, seen=None, deadline=None):
     return agg
 
 
-def _worker(spaces, tasks, results, stop):
+def _worker(spaces, tasks, results, stop, slots, slot):
+    try:
+        os.setsid()          # own process group, so that a hung worker can be killed with its Pool children
+    except Exception:      # noqa
+        pass
+    try:
+        import faulthandler, signal
+        faulthandler.register(signal.SIGUSR1, all_threads=True)
+    except Exception:      # noqa
+        pass
     try:
         import matplotlib
         matplotlib.use('Agg')
     except Exception:      # noqa
         pass
     while True:
-        try:
-            item = tasks.get(timeout=1.0)
-        except _queue.Empty:
-            continue
+        item = tasks.get()
         if item is None:
             break
         tid, si, node = item
+        slots[slot] = tid          # shared memory: visible to the parent even if this process dies
         if stop.is_set():
-            results.put((tid, si, None))
+            results.put(('done', tid, si, None))
             continue
         try:
             agg = walk_subtree(spaces[si], node)
-            results.put((tid, si, agg.dump()))
+            results.put(('done', tid, si, agg.dump()))
         except BaseException as e:      # noqa
-            results.put((tid, si, {'fatal': traceback.format_exc()}))
+            results.put(('done', tid, si, {'fatal': traceback.format_exc()}))
 
 
-def explore(spaces, jobs=16, max_viol=40, log=None, task_timeout=3600):
-    """Explore all spaces; return a merged report dict."""
+def _killpg(pid):
+    import signal
+    try:
+        os.killpg(pid, signal.SIGKILL)
+    except Exception:      # noqa
+        try:
+            os.kill(pid, signal.SIGKILL)
+        except Exception:      # noqa
+            pass
+
+
+def explore(spaces, jobs=16, max_viol=40, log=None, task_timeout=None):
+    """Explore all spaces; return a merged report dict.
+
+    A sub-tree that produces no result within ``task_timeout`` seconds (or whose worker dies) is
+    re-queued on a fresh worker up to two times; a sub-tree that hangs or crashes three times is
+    reported as a violation (kind 'hang' / 'crash') - never silently skipped."""
     log = log or (lambda *a: None)
+    task_timeout = task_timeout or float(os.environ.get('BCMC_TASK_TIMEOUT', '420'))
     ctx = mp.get_context('fork')
     tasks = ctx.Queue()
     results = ctx.Queue()
@@ -344,55 +367,117 @@ def explore(spaces, jobs=16, max_viol=40, log=None, task_timeout=3600):
         per_space.append(agg)
 
     nproc = max(1, min(jobs, len(task_list)))
-    procs = []
-    for _ in range(nproc):
-        p = ctx.Process(target=_worker, args=(spaces, tasks, results, stop))
+    procs = {}
+    slots = ctx.Array('i', [-1] * (nproc + 3 * 64 + 8), lock=False)
+    slot_of = {}
+
+    def spawn():
+        k = len(slot_of)
+        if k >= len(slots):
+            return
+        p = ctx.Process(target=_worker, args=(spaces, tasks, results, stop, slots, k))
         p.daemon = False
         p.start()
-        procs.append(p)
+        procs[p.pid] = p
+        slot_of[p.pid] = k
+
+    for _ in range(nproc if task_list else 0):
+        spawn()
     for t in task_list:
         tasks.put(t)
-    for _ in procs:
-        tasks.put(None)
 
     got = {}
-    t_last = time.time()
+    running = {}          # tid -> (pid, start time)
+    retries = collections.Counter()
     fatal = None
     total_viol = sum(a.nviol for a in per_space)
     complete = True
-    while len(got) < len(task_list):
-        try:
-            tid, si, res = results.get(timeout=5.0)
-        except _queue.Empty:
-            if time.time() - t_last > task_timeout:
-                fatal = 'no result for %d s (hang?)' % task_timeout
-                break
-            if not any(p.is_alive() for p in procs):
-                fatal = 'all workers died'
-                break
-            continue
-        t_last = time.time()
-        got[tid] = (si, res)
-        if res is None:
-            complete = False
-            continue
-        if 'fatal' in res:
-            fatal = res['fatal']
-            stop.set()
-            continue
-        total_viol += res['nviol']
-        if total_viol >= max_viol and not stop.is_set():
-            stop.set()
-        if len(got) % 200 == 0:
-            log('  ... %d/%d sub-trees' % (len(got), len(task_list)))
-    if fatal:
-        stop.set()
-        for p in procs:
-            p.terminate()
-    for p in procs:
-        p.join(timeout=30)
-        if p.is_alive():
-            p.terminate()
+    hang_viols = []
+
+    def give_up_or_retry(tid, why):
+        retries[tid] += 1
+        _, si, node = task_list[tid]
+        if retries[tid] >= 3:
+            sp = spaces[si]
+            hang_viols.append((si, {'space': sp.name, 'case': sp.case(node) if sp.is_case(node) else list(node),
+                                    'signature': {'kind': why, 'space': sp.name},
+                                    'message': 'sub-tree %s of %s %s three times (limit %ds)' % (list(node), sp.name, why, task_timeout),
+                                    'expected': None, 'observed': None}))
+            got[tid] = (si, None)
+            return
+        log('  !! sub-tree %d (%s %s) %s - retry %d on a fresh worker' % (tid, spaces[si].name, list(node), why, retries[tid]))
+        spawn()
+        tasks.put(task_list[tid])
+
+    try:
+        while len(got) < len(task_list):
+            try:
+                msg = results.get(timeout=2.0)
+            except _queue.Empty:
+                msg = None
+            now = time.time()
+            for pid, k in slot_of.items():
+                tid = slots[k]
+                if pid in procs and tid >= 0 and tid not in got and running.get(tid, (None,))[0] != pid:
+                    running[tid] = (pid, now)
+            if msg is not None:
+                _, tid, si, res = msg
+                running.pop(tid, None)
+                if tid in got:
+                    continue
+                got[tid] = (si, res)
+                if res is None:
+                    complete = False
+                elif 'fatal' in res:
+                    fatal = res['fatal']
+                    stop.set()
+                else:
+                    total_viol += res['nviol']
+                    if total_viol >= max_viol and not stop.is_set():
+                        stop.set()
+                    if len(got) % 200 == 0:
+                        log('  ... %d/%d sub-trees' % (len(got), len(task_list)))
+            # watchdog: hung or dead workers
+            for tid, (pid, t0) in list(running.items()):
+                p = procs.get(pid)
+                dead = p is not None and not p.is_alive()
+                if dead or now - t0 > task_timeout:
+                    running.pop(tid, None)
+                    if not dead:
+                        try:
+                            import signal
+                            os.kill(pid, signal.SIGUSR1)      # stack dump to stderr for diagnosis
+                            time.sleep(0.3)
+                        except Exception:      # noqa
+                            pass
+                    _killpg(pid)
+                    procs.pop(pid, None)
+                    if tid not in got:
+                        give_up_or_retry(tid, 'crash' if dead else 'hang')
+            if not running and not any(p.is_alive() for p in procs.values()) and len(got) < len(task_list):
+                # every worker is gone although tasks remain (should not happen): start over with fresh ones
+                if sum(retries.values()) > 3 * len(task_list):
+                    fatal = 'workers keep dying'
+                    break
+                retries['_respawn'] += 1
+                if retries['_respawn'] > 5:
+                    fatal = 'all workers died repeatedly'
+                    break
+                spawn()
+    finally:
+        for _ in range(len(procs) + 4):
+            tasks.put(None)
+        deadline = time.time() + 20
+        for p in list(procs.values()):
+            p.join(timeout=max(0.1, deadline - time.time()))
+        for pid, p in list(procs.items()):
+            if p.is_alive():
+                _killpg(pid)
+                p.join(timeout=5)
+    for si, hv in hang_viols:
+        per_space[si].nviol += 1
+        per_space[si].viols.append(hv)
+        complete = False
 
     # deterministic merge
     report = {'spaces': [], 'fatal': fatal, 'complete': complete and not fatal}
